@@ -28,6 +28,8 @@ type View struct {
 	Vendors    []string
 	Classes    []string
 	VendorFs   map[string][]string
+	VendorPP   map[string][]string // vendor -> sorted "path|priority|vendor|class" of every Spec GetVendorSpecs returns
+	SpecErrN   map[string]int      // path -> number of errors GetSpecErrors reports for that Spec
 	ErrKeys    []string
 	Errs       map[string]string
 	RefreshErr string
@@ -55,7 +57,7 @@ func markerOf(env []string) string {
 
 // Query reads everything observable from the cache (to be called inside a task).
 func Query(c *cdi.Cache, probe []string) *View {
-	v := &View{Dev: map[string]DevView{}, VendorFs: map[string][]string{}, Errs: map[string]string{}}
+	v := &View{Dev: map[string]DevView{}, VendorFs: map[string][]string{}, Errs: map[string]string{}, VendorPP: map[string][]string{}, SpecErrN: map[string]int{}}
 	v.Devices = c.ListDevices()
 	names := map[string]bool{}
 	for _, n := range v.Devices {
@@ -77,10 +79,14 @@ func Query(c *cdi.Cache, probe []string) *View {
 	v.Classes = c.ListClasses()
 	for _, vn := range v.Vendors {
 		set := map[string]bool{}
+		pp := map[string]bool{}
 		for _, s := range c.GetVendorSpecs(vn) {
 			set[s.GetPath()] = true
+			pp[fmt.Sprintf("%s|%d|%s|%s", s.GetPath(), s.GetPriority(), s.GetVendor(), s.GetClass())] = true
+			v.SpecErrN[s.GetPath()] = len(c.GetSpecErrors(s))
 		}
 		v.VendorFs[vn] = sortedKeys(set)
+		v.VendorPP[vn] = sortedKeys(pp)
 	}
 	for k, errs := range c.GetErrors() {
 		v.ErrKeys = append(v.ErrKeys, k)
@@ -192,6 +198,9 @@ func CompareTruth(v *View, t *model.Truth, o CheckOpts) (rule, sig, msg string) 
 		for _, vn := range t.Vendors() {
 			if !eqStrings(v.VendorFs[vn], t.VendorPaths(vn)) {
 				return "listing", "vendor-specs", fmt.Sprintf("%s: GetVendorSpecs(%s) paths=%v want %v", o.Where, vn, v.VendorFs[vn], t.VendorPaths(vn))
+			}
+			if !eqStrings(v.VendorPP[vn], t.VendorSpecs(vn)) {
+				return "listing", "vendor-spec-attributes", fmt.Sprintf("%s: GetVendorSpecs(%s) returns Specs (path|priority|vendor|class) %v, want %v", o.Where, vn, v.VendorPP[vn], t.VendorSpecs(vn))
 			}
 		}
 	}
